@@ -33,6 +33,9 @@ def main():
         return 0
     from engine import xh
     known = kn.matcher(prop, ob.name)
+    cap = os.environ.get('VERIF_BUDGET_CAP')       # development aid: cap every budget (never set by the registered commands)
+    if cap:
+        ob.budget = min(ob.budget, int(cap))
     res = xh.run_obligation(ob.fn, ob.fixed, ob.budget, per_path=ob.per_path, shadow=ob.shadow,
                             known=known, stop_on_first=False, max_paths=ob.max_paths)
     res['kind'] = 'xh'
